@@ -53,9 +53,11 @@ JText(e) ==
     [] e.op = "TextGuard" ->
         LET enc == e.fn \in {"EncodeToString", "EncodeToStringNoPadding", "EncodeToStringSafe"}
             max == IF enc THEN MaxEncode ELSE IF e.pkg = "b32" THEN MaxDecodeB32 ELSE MaxDecodeB64
-            q == IF e.pkg = "b32" THEN 8 ELSE 4 IN
-        << R("C13", "size_guard_accepts_up_to_limit", IsSafe(e.fn) /\ e.n >= 1 /\ e.n <= max /\ (enc \/ e.n % q = 0), e.r.ok, cls \o "/n=" \o ToString(e.n)),
-           R("C13", "size_guard_rejects_beyond_limit", IsSafe(e.fn) /\ (e.n = 0 \/ e.n > max), ~e.r.ok, cls \o "/n=" \o ToString(e.n)),
+            q == IF e.pkg = "b32" THEN 8 ELSE 4
+            k == IF "crlf" \in DOMAIN e THEN e.crlf ELSE 0
+            total == e.n + k IN       \* length of the string handed to the decoder (line breaks included)
+        << R("C13", "size_guard_accepts_up_to_limit", IsSafe(e.fn) /\ e.n >= 1 /\ total <= max /\ (enc \/ e.n % q = 0), e.r.ok, cls \o "/n=" \o ToString(e.n) \o "+" \o ToString(k)),
+           R("C13", "size_guard_rejects_beyond_limit", IsSafe(e.fn) /\ (e.n = 0 \/ total > max), ~e.r.ok, cls \o "/n=" \o ToString(e.n) \o "+" \o ToString(k)),
            R("C13", "size_guard_output_length", e.r.ok /\ enc, e.r.outlen = (IF e.pkg = "b32" THEN (IF e.fn = "EncodeToStringNoPadding" THEN CeilDiv(8 * e.n, 5) ELSE 8 * CeilDiv(e.n, 5)) ELSE 4 * CeilDiv(e.n, 3)), cls) >>
     [] OTHER -> << >>
 =============================================================================
